@@ -193,6 +193,11 @@ pub fn match_bed_and_breakfast(
         }
     }
 
+    // A split takes effect at the end of its day (see `Matcher::process`), so it rescales
+    // only acquisitions dated after it, wherever it is listed within its own day.
+    let mut ratio_effect_with_scan_day = cumulative_ratio_effect;
+    let mut scan_date = sell_tx.date;
+
     // Find transactions after sell date, within B&B window, for same ticker
     for (idx, tx) in all_transactions.iter().enumerate().skip(sell_idx + 1) {
         if *remaining <= Decimal::ZERO {
@@ -216,9 +221,14 @@ pub fn match_bed_and_breakfast(
             break;
         }
 
+        if tx.date != scan_date {
+            cumulative_ratio_effect = ratio_effect_with_scan_day;
+            scan_date = tx.date;
+        }
+
         match &tx.operation {
             Operation::Split { .. } | Operation::Unsplit { .. } => {
-                apply_split_ratio_effect(&mut cumulative_ratio_effect, tx);
+                apply_split_ratio_effect(&mut ratio_effect_with_scan_day, tx);
             }
             Operation::Buy {
                 amount,
